@@ -158,7 +158,7 @@ class Ctx:
 
 def native_stm(query, *extra):
     import shutil, subprocess
-    cdir = os.path.join(core.VERIF, "replay", "stm")
+    cdir = os.path.join(core.REPLAY_CRATES, "stm")
     shutil.copyfile(os.path.join(core.REPO, "Cargo.lock"), os.path.join(cdir, "Cargo.lock"))
     env = dict(os.environ)
     env["CARGO_NET_OFFLINE"] = "true"
